@@ -47,6 +47,21 @@ pub fn timestamp(_cex: &Value) -> Result<String, String> {
       }
     }
   }
+  // every text form of a value is the same 20-character RFC 3339 string: to_rfc3339, Display / to_string, String::from, JSON - for
+  // years of every width (0000, 0001, 0099, 0999, 1000, 9999)
+  for unix in [MIN, MIN + 1, -62135596800, -62135596801, -59011459200, -30610224000, -30610224001, 0, 1709208000, MAX - 1, MAX] {
+    let t = Timestamp::from_unix(unix).unwrap();
+    let canon = t.to_rfc3339();
+    let shown = t.to_string();
+    let owned: String = t.into();
+    let json = serde_json::to_string(&t).unwrap();
+    if canon.len() != 20 || shown != canon || owned != canon || json != format!("\"{canon}\"") {
+      log.push(format!("[parse-text] unix {unix}: to_rfc3339 {canon:?}, Display {shown:?}, String::from {owned:?}, JSON {json}"));
+    }
+    if Timestamp::parse(&shown).ok() != Some(t) || serde_json::from_str::<Timestamp>(&json).ok() != Some(t) {
+      log.push(format!("[parse-text] unix {unix}: Display {shown:?} / JSON {json} do not read back to the same value"));
+    }
+  }
   // leap seconds, all-nines fractions and range edges reached only through an offset: accepted values are canonical whole
   // seconds (equal to from_unix of their own unix value, 20 characters when formatted), truncated - never rounded - and in range
   let special: Vec<(String, Option<i64>)> = vec![
@@ -121,7 +136,7 @@ pub fn timestamp(_cex: &Value) -> Result<String, String> {
   }
   // durations as long as the whole range (3 652 424 days and 86399 s from the first to the last instant): the sum is returned exactly
   // when it is inside the range, from starts at both ends, in both directions
-  for days in [3_649_999u32, 3_650_000, 3_650_001, 3_652_000, 3_652_423, 3_652_424, 3_652_425, 3_700_000] {
+  for days in [3_649_999u32, 3_650_000, 3_650_001, 3_652_000, 3_652_423, 3_652_424, 3_652_425, 3_700_000, 7_300_000, 7_400_000, 20_000_000, u32::MAX / 86400, u32::MAX] {
     let d = days as i64 * 86400;
     for (base, sign) in [(MIN, 1i64), (MIN + 86399, 1), (MIN + 86400 * 2000, 1), (MAX, -1), (MAX - 86399, -1), (MAX - 86400 * 2000, -1)] {
       let t = Timestamp::from_unix(base).unwrap();
